@@ -352,6 +352,7 @@ def run_c14(chk):
         bundles.append(("b33", "CompileOrder_b33.cfg", "CompileOrder_trace33.cfg"))
     else:
         bundles.append(("b33", "CompileOrder_b33q.cfg", "CompileOrder_trace33.cfg"))
+    bundles.append(("clash", "CompileOrder_clash.cfg", "CompileOrder_traceclash.cfg"))
     all_payload = []
     per_bundle = {}
     for name, cfg, tcfg in bundles:
